@@ -58,8 +58,8 @@ type c16Writer interface {
 }
 
 type c16Stream struct {
-	w   storage.WritableCar
-	dw  *deferred.DeferredCarWriter
+	w  storage.WritableCar
+	dw *deferred.DeferredCarWriter
 }
 
 func (s *c16Stream) Put(b kit.Blk) error {
